@@ -431,6 +431,11 @@ func (c *client) handleErrorMessage(runtimeMessage DecodedRuntimeMessage) bool {
 func (c *client) hasEntriesRemaining() bool {
 	c.mutex.Lock()
 	defer c.mutex.Unlock()
+	return c.hasEntriesRemainingLocked()
+}
+
+// hasEntriesRemainingLocked is hasEntriesRemaining for callers that hold the mutex.
+func (c *client) hasEntriesRemainingLocked() bool {
 	for _, resultEntry := range c.runningStepResultEntries {
 		// If any result is nil then we're not done.
 		// Context: There is a fraction of time when the entry is still in the map
@@ -443,10 +448,28 @@ func (c *client) hasEntriesRemaining() bool {
 }
 
 func (c *client) executeReadLoop(cborReader *cbor.Decoder) {
+	// Set when the loop ends because the stream cannot be used any more.
+	var fatalErr error
 	defer func() {
 		c.mutex.Lock()
 		defer c.mutex.Unlock()
 		c.readLoopRunning = false
+		// A call that registered its entry after this loop decided to stop still saw readLoopRunning == true
+		// and did not start a read loop of its own. Do not leave it without a reader.
+		if c.hasEntriesRemainingLocked() {
+			if fatalErr != nil {
+				result := NewErrorExecutionResult(fatalErr)
+				for runID, resultEntry := range c.runningStepResultEntries {
+					if resultEntry.result == nil {
+						c.sendExecutionResult(runID, result)
+					}
+				}
+			} else {
+				c.wg.Add(1)
+				c.readLoopRunning = true
+				go c.executeReadLoop(cborReader)
+			}
+		}
 		c.wg.Done()
 	}()
 	// Loop and get all messages
@@ -460,7 +483,8 @@ func (c *client) executeReadLoop(cborReader *cbor.Decoder) {
 				err,
 			)
 			// This is fatal since the entire structure of the runtime message is invalid.
-			c.sendErrorToAll(fmt.Errorf("failed to read or decode runtime message (%w)", err))
+			fatalErr = fmt.Errorf("failed to read or decode runtime message (%w)", err)
+			c.sendErrorToAll(fatalErr)
 			return
 		}
 		switch runtimeMessage.MessageID {
@@ -470,6 +494,7 @@ func (c *client) executeReadLoop(cborReader *cbor.Decoder) {
 			c.handleSignalMessage(runtimeMessage)
 		case MessageTypeError:
 			if c.handleErrorMessage(runtimeMessage) {
+				fatalErr = fmt.Errorf("the plugin reported a fatal error; run ID %q", runtimeMessage.RunID)
 				return // Fatal
 			}
 		default:
